@@ -99,7 +99,7 @@ func (ex *Exec) staticCall(st *State, fr *Frame, callee *ssa.Function, binds []*
 		return
 	}
 	body, subst := ex.calleeSubst(fr, callee)
-	cs := ex.P.Specs.Funcs[key]
+	cs := ex.P.Specs.For(key, ex.prop)
 	if cs == nil && body.Parent() != nil {
 		// closures without contract are inlined
 		cs = &FuncSpec{Key: key, Inline: true, Loops: map[int]*LoopSpec{}, Opaque: map[string]bool{}}
@@ -196,7 +196,7 @@ func (ex *Exec) invokeCall(st *State, fr *Frame, call *ssa.CallCommon, recv *Val
 		k(st, scalar(ex.env.d.Apply(name, recv.T)))
 		return
 	}
-	cs := ex.P.Specs.Funcs[key]
+	cs := ex.P.Specs.For(key, ex.prop)
 	if cs == nil {
 		panic(oos("interface call " + key + " has no contract"))
 	}
@@ -256,7 +256,7 @@ func (ex *Exec) dynamicCall(st *State, fr *Frame, call *ssa.CallCommon, fnv *Val
 			panic(oos("call of function value of unnamed type " + ft.String()))
 		}
 		key := pk.Path() + ".(" + types.TypeString(ft, func(p *types.Package) string { return p.Name() }) + ").call"
-		cs := ex.P.Specs.Funcs[key]
+		cs := ex.P.Specs.For(key, ex.prop)
 		if cs == nil {
 			panic(oos("function-typed call " + key + " has no contract"))
 		}
@@ -274,7 +274,7 @@ func (ex *Exec) dynamicCall(st *State, fr *Frame, call *ssa.CallCommon, fnv *Val
 		pkg = n.Obj().Pkg().Path()
 	}
 	key := pkg + ".(" + n.Obj().Name() + ").call"
-	cs := ex.P.Specs.Funcs[key]
+	cs := ex.P.Specs.For(key, ex.prop)
 	if cs == nil {
 		panic(oos("function-typed call " + key + " has no contract"))
 	}
@@ -1633,7 +1633,7 @@ func (ex *Exec) monitorFor(loc *Loc) *MonitorSpec {
 	}
 	first := strings.SplitN(strings.TrimPrefix(loc.PathS, "."), ".", 2)[0]
 	tname := n.Obj().Name()
-	for _, m := range ex.P.Specs.Monitors {
+	for _, m := range ex.monitors() {
 		if m.PkgPath != n.Obj().Pkg().Path() {
 			continue
 		}
@@ -1667,7 +1667,7 @@ func (ex *Exec) lockCheck(st *State, loc *Loc, in ssa.Instruction) {
 func (ex *Exec) lockCheckMap(st *State, m *Term, in ssa.Instruction) {
 	// a map reached through a guarded field: (select |.. F T .guard| obj)
 	str := m.String()
-	for _, mon := range ex.P.Specs.Monitors {
+	for _, mon := range ex.monitors() {
 		for _, g := range mon.Guards {
 			if strings.Contains(g, ".") {
 				continue
@@ -1891,6 +1891,24 @@ func (ex *Exec) lockOp(st *State, fr *Frame, key string, recv *Val, instr ssa.In
 	}
 }
 
+// monitors returns the monitor declarations that apply to the property being checked.
+func (ex *Exec) monitors() []*MonitorSpec {
+	var out []*MonitorSpec
+	for _, m := range ex.P.Specs.Monitors {
+		if m.Only == "" || m.Only == ex.prop {
+			out = append(out, m)
+		}
+	}
+	return out
+}
+
+func (ex *Exec) monitorDecl(typeKey string) *MonitorSpec {
+	if m := ex.P.Specs.Monitors[typeKey+"@"+ex.prop]; m != nil {
+		return m
+	}
+	return ex.P.Specs.Monitors[typeKey+"@"]
+}
+
 // monitorOf returns the monitor declaration whose lock is the given field location.
 func (ex *Exec) monitorOf(recv *Val) (*MonitorSpec, *Term, types.Type) {
 	if recv.Loc == nil || recv.Loc.Kind != LHeap {
@@ -1900,7 +1918,7 @@ func (ex *Exec) monitorOf(recv *Val) (*MonitorSpec, *Term, types.Type) {
 	if !ok || n.Obj().Pkg() == nil {
 		return nil, nil, nil
 	}
-	m := ex.P.Specs.Monitors[n.Obj().Pkg().Path()+"."+n.Obj().Name()]
+	m := ex.monitorDecl(n.Obj().Pkg().Path() + "." + n.Obj().Name())
 	if m == nil || "."+m.Lock != recv.Loc.PathS {
 		return nil, nil, nil
 	}
@@ -1931,6 +1949,24 @@ func (ex *Exec) monitorEnter(st *State, fr *Frame, name string, recv *Val, instr
 	}
 	stru := ex.env.resolve(base).Underlying().(*types.Struct)
 	for _, g := range m.Guards {
+		if strings.HasPrefix(g, "pkg:") {
+			// every field, element and map of the types of a package (key substring)
+			sub := strings.TrimPrefix(g, "pkg:")
+			hv := func(key string, cur *Term) {
+				if (strings.HasPrefix(key, "F ") || strings.HasPrefix(key, "E ") || strings.HasPrefix(key, "Mdom ") || strings.HasPrefix(key, "Mval ")) && strings.Contains(key, sub) {
+					st.heap[key] = ex.fresh("hv_mon", cur.Sort)
+				}
+			}
+			for key, cur := range st.heap {
+				hv(key, cur)
+			}
+			for key, cur := range ex.initHeap {
+				if _, done := st.heap[key]; !done {
+					hv(key, cur)
+				}
+			}
+			continue
+		}
 		if strings.HasPrefix(g, "[]") {
 			// element storage of every slice/array of that element type
 			et := strings.TrimPrefix(g, "[]")
@@ -1976,6 +2012,15 @@ func (ex *Exec) monitorEnter(st *State, fr *Frame, name string, recv *Val, instr
 			}
 		}
 	}
+	// objects allocated by other threads in the meantime
+	{
+		al := ex.allocArr(st)
+		nal := ex.fresh("alloc_mon", al.Sort)
+		xa := Sym(fmt.Sprintf("a!mon%d", ex.nfresh), SRef)
+		st.assume(Forall([]*Term{xa}, Implies(Select(al, xa), Select(nal, xa)), []*Term{Select(nal, xa)}))
+		st.assume(Not(Select(nal, IntLit(0))))
+		st.heap["alloc"] = nal
+	}
 	// channels closed by other threads
 	key := "chan closed"
 	cl := ex.heapGet(st, key, ArraySort(SRef, SBool))
@@ -1989,6 +2034,13 @@ func (ex *Exec) monitorEnter(st *State, fr *Frame, name string, recv *Val, instr
 		st.assume(c.EvalBool(m.Inv.Expr))
 	}
 	ex.monitorAssuming(st, fr, m, self, base)
+	if m.Rely != nil && len(st.unlockSnaps) > 0 {
+		// what this thread owns (allocated itself) was not touched by the others since its last Unlock
+		c := ex.frameCtx(st, fr)
+		c.names[m.RecvName] = &SV{V: scalar(self), T: types.NewPointer(base)}
+		st.assume(c.EvalBool(m.Rely.Expr))
+		ex.trusted["rely of monitor "+m.TypeName+" (implied by every thread's proved guarantee; ownership = allocated by the invocation): "+m.Rely.Src] = true
+	}
 	st.lockSnaps = append(st.lockSnaps, st.snapshot())
 }
 
@@ -2009,6 +2061,11 @@ func (ex *Exec) monitorExit(st *State, fr *Frame, name string, recv *Val, instr 
 		return
 	}
 	st.unlockSnaps = append(st.unlockSnaps, st.snapshot())
+	if m.Guarantee != nil {
+		c := ex.frameCtx(st, fr)
+		c.names[m.RecvName] = &SV{V: scalar(self), T: types.NewPointer(base)}
+		ex.check(st, "guarantee", ex.site("guarantee", instr), c.EvalBool(m.Guarantee.Expr), "guarantee of the critical section ending here: "+m.Guarantee.Src, ex.pos(instr))
+	}
 	if m.Inv == nil {
 		return
 	}
@@ -2040,7 +2097,7 @@ func (ex *Exec) tryDevirt(st *State, fr *Frame, call *ssa.CallCommon, recv *Val,
 		}
 		key := n.Obj().Pkg().Path() + ".(" + star + n.Obj().Name() + ")." + call.Method.Name()
 		callee := ex.P.Funcs[key]
-		cs := ex.P.Specs.Funcs[key]
+		cs := ex.P.Specs.For(key, ex.prop)
 		if callee == nil || cs == nil {
 			continue
 		}
